@@ -84,7 +84,11 @@ func Probe(args []string) int {
 		err := w.Call(st.Op, a, &res)
 		fmt.Printf("%s %s\n  -> err=%v %s\n", st.Op, trunc(string(st.Args), 200), err, trunc(string(res), probeLimit()))
 		if w.Dead() {
-			fmt.Println(w.StderrTail())
+			if os.Getenv("VERIF_PROBE_FULL") != "" {
+				fmt.Println(w.StderrAll())
+			} else {
+				fmt.Println(w.StderrTail())
+			}
 			return 1
 		}
 	}
